@@ -1,4 +1,4 @@
-SPECIFICATION SpecSweep
+SPECIFICATION SwSpec
 CONSTANTS
   MaxHeight = 6
   MaxTx = 18
@@ -8,4 +8,5 @@ CONSTANTS
   Presets <- PresetsFull
 INVARIANT Inv
 INVARIANT Emit
+PROPERTY SwStepProps
 CHECK_DEADLOCK FALSE
